@@ -234,7 +234,7 @@ def replay(ctx, rec):
         except Exception:  # noqa
             return True
     if "features" not in c:
-        return True
+        raise core.CannotReplay("no executable case in this replay file")
     if "hseed" in c.get("q", {}):        # an answer of a handle history: the whole history is run again from its seed and judged
         hd, he, hm = history(c["q"]["hseed"], ctx.path("replay_h.db") if c["q"].get("hfile") else ":memory:")
         return any(cl != "drift" for _, cl in judge(ctx, hd, he, "replay"))
